@@ -47,8 +47,12 @@ THEOREMS = [
       fst (run R p s) = EIo e \\/ (e = EUnexpectedEof /\\ fst (run R p s) = EParse TruncatedChunk)"""),
 ]
 _WREQ = ["From Coq Require Import List NArith Bool.", "From Coq.Strings Require Import Byte.",
-         "From MS Require Import Base.Bytes Base.Outcome Base.Prog Base.ProgSpec Webp.Container Props.C13w.", "Open Scope N_scope."]
-REQUIRES_FOR = {"C13_fault_propagates_webp": _WREQ, "C13_reader_error_propagates_webp": _WREQ}
+         "From MS Require Import Base.Bytes Base.Outcome Base.Prog Base.ProgSpec Webp.Container Webp.ContainerProofsTotal Props.C13w.", "Open Scope N_scope."]
+THEOREMS.append(("C13_no_spurious_io_webp", """forall (lossless : N -> N -> bytes -> res unit) (allow lenient : bool) (ms : N) (inp : input) (fuel : nat),
+  (forall w h b, rgood (lossless w h b)) -> (forall w h b e, lossless w h b <> EIo e) ->
+  (lenient = true -> ilen inp + 2 ^ 32 <= ms) ->
+  forall e, webp_sanitize lossless allow lenient ms inp fuel <> EIo e"""))
+REQUIRES_FOR = {"C13_fault_propagates_webp": _WREQ, "C13_reader_error_propagates_webp": _WREQ, "C13_no_spurious_io_webp": _WREQ}
 TRUSTED = [
     "Coq 8.16.1 kernel (coqc; coqchk in the thorough tier); vm_compute only in Examples; no native_compute",
     "axioms: none (Print Assumptions = Closed under the global context for every theorem)",
@@ -81,7 +85,8 @@ EXHAUSTIVE = {"quick": True, "thorough": True}
 XCHECK_N = 16
 NOTES = ["exhaustive = every inner operation index x every listed error kind x both entry points for each input of the corpus; the theorems "
          "cover every reader, state, index and kind",
-         "WebP half: C13_fault_propagates_webp / C13_reader_error_propagates_webp are about the container programme Webp/Container.v (the lossless "
+         "WebP half: C13_no_spurious_io_webp (fault-free cursor, strict or seek-style with a bound 2^32 beyond the input: never Io, any fuel) and "
+         "C13_fault_propagates_webp / C13_reader_error_propagates_webp are about the container programme Webp/Container.v (the lossless "
          "validator is a pure parameter there: the model reads the chunk body with one read operation and hands the bytes over, the code pulls them "
          "through its 4 KiB bit buffer); fault indices of model and code therefore do not align and the `wfault` lines are judged by the oracle "
          "only (every inner operation index x 6 kinds on ~25 files), not compared with a model run"]
